@@ -1,7 +1,9 @@
 (* C03/Sem.v - reference semantics of the core script language: a big-step evaluator with fuel.
 
    What is modelled (the "language rules" of property C03, for error-free programs):
-   - values: NIL, 64-bit signed integers (wrapping), strings, hash arrays and constant arrays
+   - values: NIL, 64-bit signed integers (wrapping), strings, float literals as opaque printed
+     text (copied, printed, negated, concatenated with strings, tested for truth - no arithmetic),
+     hash arrays and constant arrays
      (both by reference: assignment copies the reference, element writes are seen through
      every alias);
    - scopes: local (per thread), group (shared by the threads started with `thread` from the
@@ -30,6 +32,7 @@ Inductive value :=
 | VNil
 | VInt (z : Z)
 | VStr (s : str)
+| VFlt (shown : str) (nz : bool)   (* opaque float: printed text, truth value; only copied, printed, negated, concatenated *)
 | VArr (a : nat)         (* reference to a hash array in the heap *)
 | VCArr (a : nat).       (* reference to a constant array in the heap *)
 
@@ -50,7 +53,7 @@ Record st := mkSt { s_loc : env; s_grp : env; s_g : glob; s_depth : nat }.
 Inductive outcome :=
 | ONormal | OBreak | OContinue
 | OEnd (v : value)
-| OGoto (f : N)
+| OGoto (f : N) (args : list value)
 | OThrow (f : N) (args : list value).
 
 Definition max_depth : nat := 12.
@@ -87,6 +90,7 @@ Definition str_of_value (v : value) : option str :=
   | VNil => Some s_nil
   | VInt z => Some (dec z)
   | VStr s => Some s
+  | VFlt s _ => Some s
   | _ => None
   end.
 
@@ -95,6 +99,7 @@ Definition truthy (v : value) : bool :=
   | VNil => false
   | VInt z => negb (z =? 0)
   | VStr s => negb (str_eqb s [])
+  | VFlt _ nz => nz
   | _ => true
   end.
 
@@ -131,7 +136,26 @@ Definition int_op (o : binop) (x y : Z) : option value :=
   | OGe => Some (vbool (y <=? x))
   end.
 
+Definition is_flt (v : value) : bool := match v with VFlt _ _ => true | _ => false end.
+
+(* the sign of a printed float: "%.3f" of -x is "-" followed by "%.3f" of x (also for zero) *)
+Definition flip_sign (s : str) : str :=
+  match s with
+  | c :: r => if Ascii.eqb c "-"%char then r else "-"%char :: s
+  | [] => s
+  end.
+
 Definition binop_eval (o : binop) (a b : value) : option value :=
+  if is_flt a || is_flt b then
+    (* float arithmetic and comparison are outside the core; only concatenation with a string *)
+    match o, a, b with
+    | OAdd, VStr s, VFlt t _ => Some (VStr (s ++ t))
+    | OAdd, VFlt s _, VStr t => Some (VStr (s ++ t))
+    | OEq, VFlt _ _, VNil | OEq, VNil, VFlt _ _ => Some (VInt 0)
+    | ONe, VFlt _ _, VNil | ONe, VNil, VFlt _ _ => Some (VInt 1)
+    | _, _, _ => None
+    end
+  else
   match o with
   | OEq => Some (vbool (value_eq a b))
   | ONe => Some (vbool (negb (value_eq a b)))
@@ -335,6 +359,7 @@ Definition size_value (h : list hobj) (v : value) : option value :=
   | VNil => Some (VInt (-1))
   | VInt _ => Some (VInt 1)
   | VStr s => Some (VInt (Z.of_nat (List.length s)))
+  | VFlt _ _ => Some (VInt 1)
   | VArr p => match nth_error h p with Some (HArr l) => Some (VInt (Z.of_nat (List.length l))) | _ => None end
   | VCArr p => match nth_error h p with Some (HCArr l) => Some (VInt (Z.of_nat (List.length l))) | _ => None end
   end.
@@ -421,365 +446,366 @@ Definition lval_expr (l : lval) : expr :=
 
 (* ------------------------------------------------------------------ the evaluator *)
 
+(* The evaluator is written with open recursion: every function body takes the record R of the
+   functions to call for sub-terms; [ev n] ties the knot n times (fuel n), starting from the
+   functions that never return. *)
+
+Record rec := mkRec {
+  r_eval : expr -> st -> option (value * st);
+  r_eval_list : list expr -> st -> option (list value * st);
+  r_call : N -> list value -> bool -> st -> option (value * st);
+  r_run_items : program -> st -> option (value * st);
+  r_exec : stmt -> st -> option (outcome * st);
+  r_exec_list : list stmt -> st -> option (outcome * st);
+  r_exec_items : list switem -> st -> option (outcome * st);
+  r_loop : expr -> stmt -> stmt -> st -> option (outcome * st);
+  r_run_handlers : list handler -> list value -> st -> option (outcome * st)
+}.
+
 Section Eval.
 Variable prog : program.
+Variable R : rec.
 
-Fixpoint eval (n : nat) (e : expr) (s : st) {struct n} : option (value * st) :=
-  match n with
-  | O => None
-  | S n' =>
-    match e with
-    | EInt z => Some (VInt z, s)
-    | EStr t => Some (VStr t, s)
-    | ENil => Some (VNil, s)
-    | EVar sc x => Some (get_var sc x s, s)
-    | EIdx a i =>
-      match eval n' a s with
-      | Some (va, s1) =>
-        match eval n' i s1 with
-        | Some (vi, s2) =>
-          match index_value (g_heap (s_g s2)) va vi with
-          | Some v => Some (v, s2)
-          | None => None
-          end
+Definition eval_body (e : expr) (s : st) : option (value * st) :=
+  match e with
+  | EInt z => Some (VInt z, s)
+  | EStr t => Some (VStr t, s)
+  | EFlt t nz => Some (VFlt t nz, s)
+  | ENil => Some (VNil, s)
+  | EVar sc x => Some (get_var sc x s, s)
+  | EIdx a i =>
+    match r_eval R a s with
+    | Some (va, s1) =>
+      match r_eval R i s1 with
+      | Some (vi, s2) =>
+        match index_value (g_heap (s_g s2)) va vi with
+        | Some v => Some (v, s2)
         | None => None
         end
       | None => None
       end
-    | ENeg a =>
-      match eval n' a s with
-      | Some (VInt z, s1) => Some (VInt (wrap (- z)), s1)
-      | _ => None
-      end
-    | ENot a =>
-      match eval n' a s with
-      | Some (v, s1) => Some (vbool (negb (truthy v)), s1)
-      | None => None
-      end
-    | ECpl a =>
-      match eval n' a s with
-      | Some (VInt z, s1) => Some (VInt (Z.lnot z), s1)
-      | _ => None
-      end
-    | EBin o a b =>
-      match eval n' a s with
-      | Some (va, s1) =>
-        match eval n' b s1 with
-        | Some (vb, s2) =>
-          match binop_eval o va vb with
-          | Some v => Some (v, s2)
-          | None => None
-          end
-        | None => None
-        end
-      | None => None
-      end
-    | EAnd a b =>
-      match eval n' a s with
-      | Some (va, s1) =>
-        if truthy va then
-          match eval n' b s1 with
-          | Some (vb, s2) => Some (vbool (truthy vb), s2)
-          | None => None
-          end
-        else Some (VInt 0, s1)
-      | None => None
-      end
-    | EOr a b =>
-      match eval n' a s with
-      | Some (va, s1) =>
-        if truthy va then Some (VInt 1, s1)
-        else
-          match eval n' b s1 with
-          | Some (vb, s2) => Some (vbool (truthy vb), s2)
-          | None => None
-          end
-      | None => None
-      end
-    | ECall f args =>
-      match eval_list n' args s with
-      | Some (vs, s1) => call n' f vs false s1
-      | None => None
-      end
-    | ESize a =>
-      match eval n' a s with
-      | Some (va, s1) =>
-        match size_value (g_heap (s_g s1)) va with
-        | Some v => Some (v, s1)
-        | None => None
-        end
-      | None => None
-      end
-    | ECArr es =>
-      match eval_list n' es s with
-      | Some (vs, s1) =>
-        let h := g_heap (s_g s1) in
-        Some (VCArr (List.length h), set_heap s1 (h ++ [HCArr vs]))
-      | None => None
-      end
+    | None => None
     end
-  end
+  | ENeg a =>
+    match r_eval R a s with
+    | Some (VInt z, s1) => Some (VInt (wrap (- z)), s1)
+    | Some (VFlt t nz, s1) => Some (VFlt (flip_sign t) nz, s1)
+    | _ => None
+    end
+  | ENot a =>
+    match r_eval R a s with
+    | Some (v, s1) => Some (vbool (negb (truthy v)), s1)
+    | None => None
+    end
+  | ECpl a =>
+    match r_eval R a s with
+    | Some (VInt z, s1) => Some (VInt (Z.lnot z), s1)
+    | _ => None
+    end
+  | EBin o a b =>
+    match r_eval R a s with
+    | Some (va, s1) =>
+      match r_eval R b s1 with
+      | Some (vb, s2) =>
+        match binop_eval o va vb with
+        | Some v => Some (v, s2)
+        | None => None
+        end
+      | None => None
+      end
+    | None => None
+    end
+  | EAnd a b =>
+    match r_eval R a s with
+    | Some (va, s1) =>
+      if truthy va then
+        match r_eval R b s1 with
+        | Some (vb, s2) => Some (vbool (truthy vb), s2)
+        | None => None
+        end
+      else Some (VInt 0, s1)
+    | None => None
+    end
+  | EOr a b =>
+    match r_eval R a s with
+    | Some (va, s1) =>
+      if truthy va then Some (VInt 1, s1)
+      else
+        match r_eval R b s1 with
+        | Some (vb, s2) => Some (vbool (truthy vb), s2)
+        | None => None
+        end
+    | None => None
+    end
+  | ECall f args =>
+    match r_eval_list R args s with
+    | Some (vs, s1) => r_call R f vs false s1
+    | None => None
+    end
+  | ESize a =>
+    match r_eval R a s with
+    | Some (va, s1) =>
+      match size_value (g_heap (s_g s1)) va with
+      | Some v => Some (v, s1)
+      | None => None
+      end
+    | None => None
+    end
+  | ECArr es =>
+    match r_eval_list R es s with
+    | Some (vs, s1) =>
+      let h := g_heap (s_g s1) in
+      Some (VCArr (List.length h), set_heap s1 (h ++ [HCArr vs]))
+    | None => None
+    end
+  end.
 
-with eval_list (n : nat) (es : list expr) (s : st) {struct n} : option (list value * st) :=
-  match n with
-  | O => None
-  | S n' =>
-    match es with
-    | [] => Some ([], s)
-    | e :: r =>
-      match eval n' e s with
-      | Some (v, s1) =>
-        match eval_list n' r s1 with
-        | Some (vs, s2) => Some (v :: vs, s2)
-        | None => None
-        end
+Definition eval_list_body (es : list expr) (s : st) : option (list value * st) :=
+  match es with
+  | [] => Some ([], s)
+  | e :: r =>
+    match r_eval R e s with
+    | Some (v, s1) =>
+      match r_eval_list R r s1 with
+      | Some (vs, s2) => Some (v :: vs, s2)
       | None => None
       end
+    | None => None
     end
-  end
+  end.
 
 (* start label f with the arguments args; share = the callee runs in the caller's group *)
-with call (n : nat) (f : N) (args : list value) (share : bool) (s : st) {struct n} : option (value * st) :=
-  match n with
-  | O => None
-  | S n' =>
-    match find_label f prog with
-    | None => None
-    | Some (ps, rest) =>
-      if Nat.leb max_depth (s_depth s) then None
-      else
-        let callee := mkSt [] (if share then s_grp s else []) (s_g s) (S (s_depth s)) in
-        let (callee', _) := bind_params ps args callee in
-        match run_items n' rest callee' with
-        | Some (v, s') =>
-          Some (v, mkSt (s_loc s) (if share then s_grp s' else s_grp s) (s_g s') (s_depth s))
-        | None => None
-        end
-    end
-  end
+Definition call_body (f : N) (args : list value) (share : bool) (s : st) : option (value * st) :=
+  match find_label f prog with
+  | None => None
+  | Some (ps, rest) =>
+    if Nat.leb max_depth (s_depth s) then None
+    else
+      let callee := mkSt [] (if share then s_grp s else []) (s_g s) (S (s_depth s)) in
+      let (callee', _) := bind_params ps args callee in
+      match r_run_items R rest callee' with
+      | Some (v, s') =>
+        Some (v, mkSt (s_loc s) (if share then s_grp s' else s_grp s) (s_g s') (s_depth s))
+      | None => None
+      end
+  end.
 
 (* run a thread from a position of the file *)
-with run_items (n : nat) (items : program) (s : st) {struct n} : option (value * st) :=
-  match n with
-  | O => None
-  | S n' =>
-    match items with
-    | [] => Some (VNil, s)
-    | TLabel _ [] :: r => run_items n' r s
-    | TLabel _ (_ :: _) :: _ => None
-    | TStmt c :: r =>
-      match exec n' c s with
-      | Some (ONormal, s1) => run_items n' r s1
-      | Some (OEnd v, s1) => Some (v, s1)
-      | Some (OGoto g, s1) =>
-        match find_label g prog with
-        | Some ([], rest) => run_items n' rest s1
-        | _ => None
-        end
-      | _ => None
+Definition run_items_body (items : program) (s : st) : option (value * st) :=
+  match items with
+  | [] => Some (VNil, s)
+  | TLabel _ [] :: r => r_run_items R r s
+  | TLabel _ (_ :: _) :: _ => None
+  | TStmt c :: r =>
+    match r_exec R c s with
+    | Some (ONormal, s1) => r_run_items R r s1
+    | Some (OEnd v, s1) => Some (v, s1)
+    | Some (OGoto g args, s1) =>
+      match find_label g prog with
+      | Some (ps, rest) => let (s2, _) := bind_params ps args s1 in r_run_items R rest s2
+      | None => None
       end
+    | _ => None
     end
-  end
+  end.
 
-with exec (n : nat) (c : stmt) (s : st) {struct n} : option (outcome * st) :=
-  match n with
-  | O => None
-  | S n' =>
-    match c with
-    | SNop => Some (ONormal, s)
-    | SSet l e =>
-      match eval n' e s with
-      | Some (v, s1) =>
-        match eval_list n' (lv_idx l) s1 with
-        | Some (is, s2) =>
-          match keys_of is with
-          | Some ks =>
-            match assign (lv_sc l) (lv_x l) ks v s2 with
-            | Some s3 => Some (ONormal, s3)
-            | None => None
-            end
+Definition exec_body (c : stmt) (s : st) : option (outcome * st) :=
+  match c with
+  | SNop => Some (ONormal, s)
+  | SSet l e =>
+    match r_eval R e s with
+    | Some (v, s1) =>
+      match r_eval_list R (lv_idx l) s1 with
+      | Some (is, s2) =>
+        match keys_of is with
+        | Some ks =>
+          match assign (lv_sc l) (lv_x l) ks v s2 with
+          | Some s3 => Some (ONormal, s3)
           | None => None
           end
         | None => None
         end
       | None => None
       end
-    | SCSet o l e => exec n' (SSet l (EBin o (lval_expr l) e)) s
-    | SInc l =>
-      match eval n' (lval_expr l) s with
-      | Some (VNil, s1) => exec n' (SSet l ENil) s1
-      | Some (VInt z, s1) => exec n' (SSet l (EInt (wrap (z + 1)))) s1
-      | _ => None
-      end
-    | SDec l =>
-      match eval n' (lval_expr l) s with
-      | Some (VNil, s1) => exec n' (SSet l ENil) s1
-      | Some (VInt z, s1) => exec n' (SSet l (EInt (wrap (z - 1)))) s1
-      | _ => None
-      end
-    | SIf e t =>
-      match eval n' e s with
-      | Some (v, s1) => if truthy v then exec n' t s1 else Some (ONormal, s1)
-      | None => None
-      end
-    | SIfElse e t f =>
-      match eval n' e s with
-      | Some (v, s1) => if truthy v then exec n' t s1 else exec n' f s1
-      | None => None
-      end
-    | SWhile e body => loop n' e SNop body s
-    | SFor init e inc body =>
-      match exec n' init s with
-      | Some (ONormal, s1) => loop n' e inc body s1
-      | other => other
-      end
-    | SDo body e =>
-      match exec n' body s with
-      | Some (ONormal, s1) | Some (OContinue, s1) =>
-        match eval n' e s1 with
-        | Some (v, s2) => if truthy v then exec n' (SDo body e) s2 else Some (ONormal, s2)
-        | None => None
-        end
-      | Some (OBreak, s1) => Some (ONormal, s1)
-      | other => other
-      end
-    | SBreak => Some (OBreak, s)
-    | SContinue => Some (OContinue, s)
-    | SSwitch e items =>
-      match eval n' e s with
-      | Some (v, s1) =>
-        match str_of_value v with
-        | Some name =>
-          let target :=
-            match find_case name items with
-            | Some r => Some r
-            | None => find_case s_default items
-            end in
-          match target with
-          | None => Some (ONormal, s1)
-          | Some r =>
-            match exec_items n' r s1 with
-            | Some (OBreak, s2) => Some (ONormal, s2)
-            | other => other
-            end
-          end
-        | None => None
-        end
-      | None => None
-      end
-    | SBlock l => exec_list n' l s
-    | SGoto f => Some (OGoto f, s)
-    | STry body hs =>
-      match exec n' body s with
-      | Some (OThrow f args, s1) =>
-        match find_handler f hs with
-        | Some hs' => run_handlers n' hs' args s1
-        | None => Some (OThrow f args, s1)
-        end
-      | other => other
-      end
-    | SThrow f args =>
-      match eval_list n' args s with
-      | Some (vs, s1) => Some (OThrow f vs, s1)
-      | None => None
-      end
-    | SPrint args =>
-      match eval_list n' args s with
-      | Some (vs, s1) =>
-        match strs_of vs with
-        | Some ss => Some (ONormal, add_out s1 (join_strings ss))
-        | None => None
-        end
-      | None => None
-      end
-    | SThread f args =>
-      match eval_list n' args s with
-      | Some (vs, s1) =>
-        match call n' f vs true s1 with
-        | Some (_, s2) => Some (ONormal, s2)
-        | None => None
-        end
-      | None => None
-      end
-    | SEnd None => Some (OEnd VNil, s)
-    | SEnd (Some e) =>
-      match eval n' e s with
-      | Some (v, s1) => Some (OEnd v, s1)
-      | None => None
-      end
-    end
-  end
-
-with exec_list (n : nat) (l : list stmt) (s : st) {struct n} : option (outcome * st) :=
-  match n with
-  | O => None
-  | S n' =>
-    match l with
-    | [] => Some (ONormal, s)
-    | c :: r =>
-      match exec n' c s with
-      | Some (ONormal, s1) => exec_list n' r s1
-      | other => other
-      end
-    end
-  end
-
-(* the body of a switch from the selected position on: labels are passed over *)
-with exec_items (n : nat) (l : list switem) (s : st) {struct n} : option (outcome * st) :=
-  match n with
-  | O => None
-  | S n' =>
-    match l with
-    | [] => Some (ONormal, s)
-    | ILabel _ :: r => exec_items n' r s
-    | IStmt c :: r =>
-      match exec n' c s with
-      | Some (ONormal, s1) => exec_items n' r s1
-      | other => other
-      end
-    end
-  end
-
-(* while (e) { body ; inc }  with `continue` going to inc *)
-with loop (n : nat) (e : expr) (inc body : stmt) (s : st) {struct n} : option (outcome * st) :=
-  match n with
-  | O => None
-  | S n' =>
-    match eval n' e s with
-    | Some (v, s1) =>
-      if truthy v then
-        match exec n' body s1 with
-        | Some (ONormal, s2) | Some (OContinue, s2) =>
-          match exec n' inc s2 with
-          | Some (ONormal, s3) => loop n' e inc body s3
-          | other => other
-          end
-        | Some (OBreak, s2) => Some (ONormal, s2)
-        | other => other
-        end
-      else Some (ONormal, s1)
     | None => None
     end
-  end
+  | SCSet o l e => r_exec R (SSet l (EBin o (lval_expr l) e)) s
+  | SInc l =>
+    match r_eval R (lval_expr l) s with
+    | Some (VNil, s1) => r_exec R (SSet l ENil) s1
+    | Some (VInt z, s1) => r_exec R (SSet l (EInt (wrap (z + 1)))) s1
+    | _ => None
+    end
+  | SDec l =>
+    match r_eval R (lval_expr l) s with
+    | Some (VNil, s1) => r_exec R (SSet l ENil) s1
+    | Some (VInt z, s1) => r_exec R (SSet l (EInt (wrap (z - 1)))) s1
+    | _ => None
+    end
+  | SIf e t =>
+    match r_eval R e s with
+    | Some (v, s1) => if truthy v then r_exec R t s1 else Some (ONormal, s1)
+    | None => None
+    end
+  | SIfElse e t f =>
+    match r_eval R e s with
+    | Some (v, s1) => if truthy v then r_exec R t s1 else r_exec R f s1
+    | None => None
+    end
+  | SWhile e body => r_loop R e SNop body s
+  | SFor init e inc body =>
+    match r_exec R init s with
+    | Some (ONormal, s1) => r_loop R e inc body s1
+    | other => other
+    end
+  | SDo body e =>
+    match r_exec R body s with
+    | Some (ONormal, s1) | Some (OContinue, s1) =>
+      match r_eval R e s1 with
+      | Some (v, s2) => if truthy v then r_exec R (SDo body e) s2 else Some (ONormal, s2)
+      | None => None
+      end
+    | Some (OBreak, s1) => Some (ONormal, s1)
+    | other => other
+    end
+  | SBreak => Some (OBreak, s)
+  | SContinue => Some (OContinue, s)
+  | SSwitch e items =>
+    match r_eval R e s with
+    | Some (v, s1) =>
+      match str_of_value v with
+      | Some name =>
+        let target :=
+          match find_case name items with
+          | Some r => Some r
+          | None => find_case s_default items
+          end in
+        match target with
+        | None => Some (ONormal, s1)
+        | Some r =>
+          match r_exec_items R r s1 with
+          | Some (OBreak, s2) => Some (ONormal, s2)
+          | other => other
+          end
+        end
+      | None => None
+      end
+    | None => None
+    end
+  | SBlock l => r_exec_list R l s
+  | SGoto f args =>
+    match r_eval_list R args s with
+    | Some (vs, s1) => Some (OGoto f vs, s1)
+    | None => None
+    end
+  | STry body hs =>
+    match r_exec R body s with
+    | Some (OThrow f args, s1) =>
+      match find_handler f hs with
+      | Some hs' => r_run_handlers R hs' args s1
+      | None => Some (OThrow f args, s1)
+      end
+    | other => other
+    end
+  | SThrow f args =>
+    match r_eval_list R args s with
+    | Some (vs, s1) => Some (OThrow f vs, s1)
+    | None => None
+    end
+  | SPrint args =>
+    match r_eval_list R args s with
+    | Some (vs, s1) =>
+      match strs_of vs with
+      | Some ss => Some (ONormal, add_out s1 (join_strings ss))
+      | None => None
+      end
+    | None => None
+    end
+  | SThread f args =>
+    match r_eval_list R args s with
+    | Some (vs, s1) =>
+      match r_call R f vs true s1 with
+      | Some (_, s2) => Some (ONormal, s2)
+      | None => None
+      end
+    | None => None
+    end
+  | SEnd None => Some (OEnd VNil, s)
+  | SEnd (Some e) =>
+    match r_eval R e s with
+    | Some (v, s1) => Some (OEnd v, s1)
+    | None => None
+    end
+  end.
+
+Definition exec_list_body (l : list stmt) (s : st) : option (outcome * st) :=
+  match l with
+  | [] => Some (ONormal, s)
+  | c :: r =>
+    match r_exec R c s with
+    | Some (ONormal, s1) => r_exec_list R r s1
+    | other => other
+    end
+  end.
+
+(* the body of a switch from the selected position on: labels are passed over *)
+Definition exec_items_body (l : list switem) (s : st) : option (outcome * st) :=
+  match l with
+  | [] => Some (ONormal, s)
+  | ILabel _ :: r => r_exec_items R r s
+  | IStmt c :: r =>
+    match r_exec R c s with
+    | Some (ONormal, s1) => r_exec_items R r s1
+    | other => other
+    end
+  end.
+
+(* while (e) { body ; inc }  with `continue` going to inc *)
+Definition loop_body (e : expr) (inc body : stmt) (s : st) : option (outcome * st) :=
+  match r_eval R e s with
+  | Some (v, s1) =>
+    if truthy v then
+      match r_exec R body s1 with
+      | Some (ONormal, s2) | Some (OContinue, s2) =>
+        match r_exec R inc s2 with
+        | Some (ONormal, s3) => r_loop R e inc body s3
+        | other => other
+        end
+      | Some (OBreak, s2) => Some (ONormal, s2)
+      | other => other
+      end
+    else Some (ONormal, s1)
+  | None => None
+  end.
 
 (* the catch block from the selected label on: every label binds its parameters from the
    remaining thrown arguments, then its statements run; control falls into the next label *)
-with run_handlers (n : nat) (hs : list handler) (args : list value) (s : st) {struct n} : option (outcome * st) :=
-  match n with
-  | O => None
-  | S n' =>
-    match hs with
-    | [] => Some (ONormal, s)
-    | Handler _ ps body :: r =>
-      let (s1, args') := bind_params ps args s in
-      match exec_list n' body s1 with
-      | Some (ONormal, s2) => run_handlers n' r args' s2
-      | other => other
-      end
+Definition run_handlers_body (hs : list handler) (args : list value) (s : st) : option (outcome * st) :=
+  match hs with
+  | [] => Some (ONormal, s)
+  | Handler _ ps body :: r =>
+    let (s1, args') := bind_params ps args s in
+    match r_exec_list R body s1 with
+    | Some (ONormal, s2) => r_run_handlers R r args' s2
+    | other => other
     end
   end.
 
 End Eval.
+
+Definition bottom : rec :=
+  mkRec (fun _ _ => None) (fun _ _ => None) (fun _ _ _ _ => None) (fun _ _ => None) (fun _ _ => None)
+        (fun _ _ => None) (fun _ _ => None) (fun _ _ _ _ => None) (fun _ _ _ => None).
+
+Definition step (prog : program) (R : rec) : rec :=
+  mkRec (eval_body R) (eval_list_body R) (call_body prog R) (run_items_body prog R) (exec_body R)
+        (exec_list_body R) (exec_items_body R) (loop_body R) (run_handlers_body R).
+
+Fixpoint ev (prog : program) (n : nat) : rec :=
+  match n with
+  | O => bottom
+  | S n' => step prog (ev prog n')
+  end.
 
 Definition empty_glob : glob := mkG [] [] [] [] [].
 Definition init_st : st := mkSt [] [] empty_glob O.
@@ -787,7 +813,7 @@ Definition init_st : st := mkSt [] [] empty_glob O.
 (* what the host observes: the value given to `end` by the thread started at label `entry`
    with the host's arguments, and the final global state (printed lines, level/game/parm) *)
 Definition run_program (fuel : nat) (p : program) (entry : N) (args : list value) : option (value * glob) :=
-  match call p fuel entry args false init_st with
+  match r_call (ev p fuel) entry args false init_st with
   | Some (v, s) => Some (v, s_g s)
   | None => None
   end.
